@@ -1269,10 +1269,10 @@ func runFun1(m *Model, r *RuleResult) {
 	sort.Slice(decls, func(i, j int) bool { return decls[i].Pos() < decls[j].Pos() })
 	for _, fd := range decls {
 		c := &mirrorCmp{m: m, info: info, fd: fd, lits: map[types.Object]*ast.FuncLit{}, bind: map[types.Object]types.Object{}, rbind: map[types.Object]types.Object{}, done: map[[2]types.Object]bool{}}
-		endsIn := func(n ast.Node, mutatorsOnly bool) map[string]bool {
-			out := map[string]bool{}
+		var endsAt func(n ast.Node, mutatorsOnly bool, depth int, out map[string]bool)
+		endsAt = func(n ast.Node, mutatorsOnly bool, depth int, out map[string]bool) {
 			if isNilNode(n) {
-				return out
+				return
 			}
 			ast.Inspect(n, func(x ast.Node) bool {
 				if se, ok := x.(*ast.SelectorExpr); ok && c.isDequeMethod(se) {
@@ -1280,10 +1280,37 @@ func runFun1(m *Model, r *RuleResult) {
 						if !mutatorsOnly || strings.HasPrefix(se.Sel.Name, "Push") || strings.HasPrefix(se.Sel.Name, "Pop") {
 							out[e] = true
 						}
+						if strings.HasPrefix(se.Sel.Name, "Pop") {
+							out["pop"] = true
+						}
+					}
+				}
+				// the chain cases may be functions of their own (extendLeft / extendRight): look one call deep
+				if ce, ok := x.(*ast.CallExpr); ok && depth < 1 {
+					if fn, _ := calleeObj(info, ce).(*types.Func); fn != nil && m.DeclPkg[fn] == p && m.Decl[fn] != nil && m.Decl[fn].Body != nil && m.Decl[fn] != fd {
+						endsAt(m.Decl[fn].Body, mutatorsOnly, depth+1, out)
 					}
 				}
 				return true
 			})
+		}
+		endsIn := func(n ast.Node, mutatorsOnly bool) map[string]bool {
+			out := map[string]bool{}
+			endsAt(n, mutatorsOnly, 0, out)
+			delete(out, "pop")
+			return out
+		}
+		popsIn := func(body []ast.Stmt) bool {
+			out := map[string]bool{}
+			for _, s := range body {
+				endsAt(s, true, 0, out)
+			}
+			return out["pop"]
+		}
+		endsDirect := func(n ast.Node) map[string]bool {
+			out := map[string]bool{}
+			endsAt(n, true, 1, out)
+			delete(out, "pop")
 			return out
 		}
 		all := endsIn(fd.Body, true)
@@ -1356,7 +1383,7 @@ func runFun1(m *Model, r *RuleResult) {
 						e[k] = true
 					}
 				}
-				if e["front"] && e["back"] && !hasPop(fc.body, c) {
+				if e["front"] && e["back"] && !popsIn(fc.body) {
 					nboth++
 				}
 			}
@@ -1380,17 +1407,27 @@ func runFun1(m *Model, r *RuleResult) {
 					gb = append(gb, fc)
 				}
 			}
-			if len(gf) == 1 && len(gb) == 1 && hasPop(gf[0].body, c) && hasPop(gb[0].body, c) {
+			if len(gf) == 1 && len(gb) == 1 && popsIn(gf[0].body) && popsIn(gb[0].body) {
 				front, back = append(front, gf[0]), append(back, gb[0])
 			}
 		}
+		direct := endsDirect(fd.Body)
 		if len(front) != 1 {
-			r.add(Obligation{Key: key, Pos: pos, Desc: "the left-chain and right-chain cases of the funnel are mirror images", Verdict: "undecided",
-				Detail: fmt.Sprintf("expected one pair of sibling cases that pop and push at opposite ends of the queue, found %d", len(front)), Control: ctl})
+			switch {
+			case len(wedges) > 0 || (direct["front"] && direct["back"] && len(front) == 0):
+				// the funnel is opened here; its chain cases live in another function (benign AD2), or are missing altogether:
+				// the wedge is judged here, the chain cases where they are (the anchor floor counts both)
+				checkWedge(m, r, c, p, fd, wedges, nil, ctl)
+			case direct["front"] && direct["back"]:
+				r.add(Obligation{Key: key, Pos: pos, Desc: "the left-chain and right-chain cases of the funnel are mirror images", Verdict: "undecided",
+					Detail: fmt.Sprintf("expected one pair of sibling cases that pop and push at opposite ends of the queue, found %d", len(front)), Control: ctl})
+			}
 			continue
 		}
 		fc, bc := front[0], back[0]
-		checkWedge(m, r, c, p, fd, wedges, []funnelCase{fc, bc}, ctl)
+		if len(wedges) > 0 || (direct["front"] && direct["back"]) {
+			checkWedge(m, r, c, p, fd, wedges, []funnelCase{fc, bc}, ctl)
+		}
 		// each case touches only its own end (queries included), conditions aside
 		for _, side := range []struct {
 			c    funnelCase
